@@ -19,5 +19,6 @@ def main (args : List String) : IO UInt32 := do
   | ["tax"] => Proto.loop stdin stdout DriverTax.step DriverTax.init; return 0
   | ["json"] => Proto.loop stdin stdout DriverJson.step DriverJson.init; return 0
   | ["search"] => Proto.loop stdin stdout DriverSearch.step DriverSearch.init; return 0
+  | ["setops"] => Proto.loop stdin stdout DriverSetops.step DriverSetops.init; return 0
   | ["own"] => Proto.loop stdin stdout DriverOwn.stepLine Own.Heap.empty; return 0
   | _ => IO.eprintln "usage: Main <module>"; return 2
